@@ -17,6 +17,8 @@ func init() {
 const pkgBRInfo = "pkg/scheduler/api/bindrequest_info"
 
 func runC12(c *Ctx) {
+	borrow(c, "O6", "C11", "O4", "a recovered panic is reported as a failed attempt", "the status written for the hand-off must reflect the outcome of the attempt")
+
 	p, fx := c.P, c.Fx
 	// ---- O1: getTaskStatus and the fields taken from the request
 	if gts := c.Anchor("O1", pkgPodInfo, "", "getTaskStatus"); gts != nil {
